@@ -87,7 +87,7 @@ def snapshot(ex, st, v):
     return None
 
 
-def record_call(ex, st, callee_t, callee_name, args, kwargs, node, result_cls, probe=None):
+def record_call(ex, st, callee_t, callee_name, args, kwargs, node, result_cls, probe=None, note=None):
     if st.spec:
         raise Unsupported('optimiser call inside a specification')
     rec = {'callee': callee_t, 'name': callee_name, 'pos': list(args), 'kw': dict(kwargs),
@@ -101,7 +101,7 @@ def record_call(ex, st, callee_t, callee_name, args, kwargs, node, result_cls, p
         st.write(r, f, fresh_val(f'opt!{f}'))
     rec['result'] = res
     st.ghost[GHOST] = calls(st) + (rec,)
-    ex.ctx.note(f'OPT-SPEC {callee_name}: opaque third-party call, result unconstrained, arguments recorded in ghost state')
+    ex.ctx.note(note or f'OPT-SPEC {callee_name}: opaque third-party call, result unconstrained, arguments recorded in ghost state')
     return res
 
 
@@ -299,7 +299,9 @@ _orig_call = _SE.Executor.call
 
 def _call(self, st, fv, args, kwargs, node):
     if _mine(self) and fv.kind in ('any', 'opt') and fv.t is not None and _is_table_entry(fv.t):
-        return record_call(self, st, fv.t, 'biogeme.optimization.algorithms[...]', args, kwargs, node, 'OptimizationResults')
+        return record_call(self, st, fv.t, 'biogeme.optimization.algorithms[...]', args, kwargs, node, 'OptimizationResults',
+                           note='ENGINE call of an entry of biogeme.optimization.algorithms: opaque recorded call, result unconstrained '
+                                '(the eight wrappers are verified separately against their own contracts)')
     return _orig_call(self, st, fv, args, kwargs, node)
 
 
